@@ -11,6 +11,7 @@ import (
 	"github.com/reactivego/ivg"
 	"github.com/reactivego/ivg/decode"
 	"github.com/reactivego/ivg/encode"
+	"github.com/reactivego/ivg/generate"
 	"github.com/reactivego/ivg/raster/vec"
 	"github.com/reactivego/ivg/render"
 
@@ -150,10 +151,29 @@ func c17Encoder(c *run.Ctx, idx uint64) {
 	if c.WantSample() {
 		c.Sample(map[string]interface{}{"A_kind": kind, "A_calls": len(a), "B": rec.Strings(clip(b, 12))})
 	}
+	helperAt := -1
+	if r.Chance(1, 3) {
+		helperAt = r.Intn(len(b) + 1) // a gradient helper reads the selectors back: they are part of the state
+		for helperAt < len(b) && (b[helperAt].K.IsDrawing()) {
+			helperAt++
+		}
+		c.Count("B_with_helper_readback", 1)
+	}
+	selMismatch := ""
 	runB := func(e *encode.Encoder) ([]byte, error) {
 		e.Reset(vbB, palB)
+		if cs, ns := e.CSel(), e.NSel(); cs != 0 || ns != 0 {
+			selMismatch = fmt.Sprintf("CSel()=%d NSel()=%d right after Reset", cs, ns)
+		}
 		e.HighResolutionCoordinates = hiresB
-		rec.ApplyAll(e, b)
+		for i := range b {
+			if i == helperAt {
+				g := generate.Generator{}
+				g.SetDestination(e)
+				g.SetLinearGradient(0, 0, 8, 8, generate.GradientSpreadPad, []generate.GradientStop{{Offset: 0, Color: color.Black}, {Offset: 1, Color: color.White}})
+			}
+			rec.Apply(e, &b[i])
+		}
 		out, err := e.Bytes()
 		return append([]byte(nil), out...), err
 	}
@@ -197,6 +217,10 @@ func c17Encoder(c *run.Ctx, idx uint64) {
 	}
 	if errF != nil {
 		c.Violate("harness/program-B-rejected", desc(map[string]interface{}{"error": errF.Error()}))
+		return
+	}
+	if selMismatch != "" {
+		c.Violate("encoder/selectors-survive-reset", desc(map[string]interface{}{"observed": selMismatch}))
 		return
 	}
 	if !bytes.Equal(fresh, fresh2) {
